@@ -334,6 +334,14 @@ func (w *world) compareAccounting(when string, L [2]map[int]*holder, names bool)
 				continue
 			}
 			n := hd.names[0]
+			if w.raced[n] {
+				// the loser of a race for the name acquired its port under the same name: the manager's owner label and
+				// last-port memory for the name may be the loser's (observation, counted)
+				if ps.Reserved[n] != p {
+					run.Count("remembered_port_overwritten_by_losing_duplicate", 1)
+				}
+				continue
+			}
 			if ps.Used[p] != n {
 				c.Violation("accounting-owner-differs-"+proto, "%s: %s port %d is booked for %q, its live owner is %q", when, proto, p, ps.Used[p], n)
 			}
